@@ -316,6 +316,12 @@ func (c *controlConn) setupConn(conn *Conn) error {
 	}
 
 	c.conn.Store(ch)
+	if atomic.LoadInt32(&c.state) == controlConnClosing {
+		// close() ran while this (re)connect was in progress and could only close the
+		// previous connection
+		conn.Close()
+		return errors.New("gocql: control connection is closing")
+	}
 	if c.session.initialized() {
 		// We connected to control conn, so add the connect the host in pool as well.
 		// Notify session we can start trying to connect to the node.
@@ -537,6 +543,10 @@ func (c *controlConn) close() {
 	verifPoint("ctl.close")
 	if atomic.CompareAndSwapInt32(&c.state, controlConnStarted, controlConnClosing) {
 		c.quit <- struct{}{}
+	} else {
+		// the heartbeat goroutine has not started yet: make sure it never does and
+		// that reconnects in progress see that we are closing
+		atomic.CompareAndSwapInt32(&c.state, controlConnStarting, controlConnClosing)
 	}
 
 	ch := c.getConn()
